@@ -6,7 +6,7 @@ request : sym <dmax> [<hist>] <entry>,<entry>,…      entry = <hexname>:<K>:<he
                 image is loaded through FromTarball). The property quantifies over images and depths: the
                 answer does NOT depend on the history or the entry point, so the driver only validates the token.
           K: F file, D directory (with a child file "c"), M missing, X file deleted by layer 1,
-             Z directory (with a child) deleted by layer 1, L symlink, Y symlink deleted by layer 1, H tar hard link (TypeLink; the link name is an archive entry name)
+             Z directory (with a child) deleted by layer 1, W file deleted by layer 1 through a whiteout entry of type symlink, L symlink, Y symlink deleted by layer 1, H tar hard link (TypeLink; the link name is an archive entry name)
           the image has two layers: layer 0 holds the entries, layer 1 the whiteouts and a file "keep"
 reply   : d<k>=<view0>/<view1> (k = 0..dmax)  s<k>=<view0>/<view1>  cls=<…>
           per name (comma separated)   d: <Stat>.<Open>.<ReadDir>     s: the specification's verdict
@@ -33,7 +33,7 @@ def parseEnt (s : String) : Option Ent :=
   match s.splitOn ":" with
   | [n, k, l] =>
     match strOfHex n, k.toList, (if l = "-" then some "" else strOfHex l) with
-    | some n, [k], some l => if "FDMXLYHZ".toList.contains k then some ⟨n, k, l⟩ else none
+    | some n, [k], some l => if "FDMXLYHZW".toList.contains k then some ⟨n, k, l⟩ else none
     | _, _, _ => none
   | _ => none
 
@@ -47,11 +47,11 @@ def entNodes (spec : Bool) (view : Nat) (e : Ent) : Option (List (Key × Node Ke
       (if ls = [""] then none else
        match denotes dir ls with
        | some t => some [(key, .link t)]
-       | none => some [])
+       | none => some [(key, .term .wh)])        -- not followed: the path is absent (fix b2f92f5d leaves a whiteout node)
     else
       match handleSymlink dir ls with
       | .loadError => none
-      | .skipped => some []
+      | .skipped => some [(key, .term .wh)]     -- fillChainLayersWithFilesFromTar: a rejected entry leaves a whiteout node
       | .node t => some [(key, .link t)]
   -- a hard link: the code makes it a link node whose target is read from the image root; the specification
   -- says the same (a hard link names another archive entry)
@@ -60,11 +60,11 @@ def entNodes (spec : Bool) (view : Nat) (e : Ent) : Option (List (Key × Node Ke
     if spec then
       (match resolveLex [] ls with
        | some t => some [(key, .link t)]
-       | none => some [])
+       | none => some [(key, .term .wh)])
     else
       match handleHardLink dir (e.link.splitOn "/") with
       | .loadError => none
-      | .skipped => some []
+      | .skipped => some [(key, .term .wh)]
       | .node t => some [(key, .link t)]
   match e.kind with
   | 'H' => hardNode
@@ -72,6 +72,8 @@ def entNodes (spec : Bool) (view : Nat) (e : Ent) : Option (List (Key × Node Ke
   | 'D' => some [(key, .term .dir), (key ++ ["c"], .term .file)]
   | 'M' => some []
   | 'X' => some [(key, if view = 0 then .term .file else .term .wh)]
+  -- W: deleted by a whiteout entry of TYPE symlink: a whiteout is a whiteout whatever the entry type (its link name is ignored)
+  | 'W' => some [(key, if view = 0 then .term .file else .term .wh)]
   | 'Z' => if view = 0 then some [(key, .term .dir), (key ++ ["c"], .term .file)] else some [(key, .term .wh)]
   | 'L' => linkNode
   | 'Y' => match linkNode with
@@ -138,7 +140,7 @@ def layerTok (ownLayer0 : Bool) (m0 : List (Key × Node Key)) (e : Option Ent) :
   | some e =>
     if !ownLayer0 then "n" else
     match e.kind with
-    | 'F' => "f" | 'X' => "f" | 'D' => "d" | 'Z' => "d" | 'M' => "n"
+    | 'F' => "f" | 'X' => "f" | 'W' => "f" | 'D' => "d" | 'Z' => "d" | 'M' => "n"
     | _ => (match graphOf m0 (e.name.splitOn "/") with | some (.link _) => "l" | _ => "n")
 
 def viewToks (g : Graph Key) (tbl : List (Key × Node Key)) (d : Nat) (es : List Ent) (ownLayer0 : Bool)
